@@ -34,15 +34,19 @@ META = {
     'technique': ('Lean 4 proof over a micro-step program model of every write operation (generic interpreter with '
                   'statement counting, fault injection, statement-level rejection, clean-up handlers) + differential '
                   'correspondence with fault injection at every statement index + state-dump oracle'),
-    'level_text': ('Theorems C06_failed_op_is_noop_partial / C06_success_or_unchanged: for every schema, state, operation '
-                   '(attribute assignment, set(), syncUpdate, create, inheritable create, destroySelf), every invalid value '
-                   'position, every database rejection and every injected error index k, an operation that raises leaves '
-                   'tables, link tables, every instance and the cache registrations unchanged, outside the classes of '
-                   'failures named in `Atomic` (each shown non-atomic by a *_full_FALSE witness replayed on the real code); '
-                   'C06_frame: for EVERY program, a failure is a no-op iff no completed micro-step changed anything.'),
-    'level_note': ('Trusted: Lean kernel; the hand-written program model of main.py / inheritance (tied by the correspondence '
-                   'streams: outcome, statement sequence and full post-state for every k); statement-level atomicity of '
-                   'SQLite; no signal listeners; cacheValues=True.'),
+    'level_text': ('C06_failed_op_is_noop_partial / C06_failed_op_keeps_rows_instances_registrations / C06_success_or_unchanged: '
+                   'for every schema, state (no bound on rows / columns / instances), operation (attribute assignment, set() with '
+                   'any number of columns and extra keywords, syncUpdate, create, inheritable create, destroySelf), every invalid '
+                   'value position, every database rejection and every injected error index k, an operation that raises leaves '
+                   'tables, link tables, every instance and the cache registrations unchanged, outside the failures excluded by the '
+                   'decidable hypothesis `Atomic` (each excluded class has a *_full_FALSE witness that is replayed on the real code '
+                   'every run); C06_frame: for EVERY operation a failure during which no completed micro-step changed anything is a '
+                   'no-op (this is the hypothesis for destroySelf and inheritable create); C06_cleanup_undoes_parent_insert: the '
+                   'clean-up sequence of a failed child create is the exact inverse of the parent creation.'),
+    'level_note': ('Trusted: Lean kernel; the hand-written micro-step program model of main.py / inheritance (tied on every run by three '
+                   'correspondence streams: outcome, SQL statement sequence and full post-state, for the uninjected call and for an error '
+                   'at every statement index); statement-level atomicity of SQLite; no signal listeners; cacheValues=True. '
+                   'Nine known findings (non-atomic failures of the current code) are reported with stable keys.'),
     'rule': ('case = (registry order variant, history of operations building the state, operation under test); every case is '
              'run uninjected to measure its statement count n and then re-run from a rebuilt identical state with an error '
              'injected at k=1..n (OperationalError; KeyboardInterrupt too for inheritable creates); distinct = distinct '
@@ -54,7 +58,8 @@ META = {
                  'signal listeners, cacheValues=False, transactions (autoCommit off) are outside the model'],
     'assumptions': ['sqlite_sequence (AUTOINCREMENT counters) is not application data: ids consumed by a failed create are not compared',
                     'the injected error is single-shot: statements after the k-th are executed normally',
-                    'C06_inheritable_create partial: proved for parent classes without dependents and joins (NoDeps); with dependents only by correspondence sampling'],
+                    'that a child-level failure of an inheritable create is cleaned up is proved as the algebraic inverse lemma C06_cleanup_undoes_parent_insert plus a decide-checked instance; the path through the interpreter (which statements the clean-up runs when the parent class has dependents) is covered by correspondence sampling and the oracle, not by a general theorem',
+                    'destroySelf and inheritable create: the partial theorem has the semantic hypothesis Quiet (no completed micro-step changed anything), not a syntactic one on the dependency graph'],
     'exhaustive': False,
 }
 
@@ -69,6 +74,7 @@ CLS = {
     'E': dict(cols=[('b', dict(fk=('B', 'c')))]),
     'N': dict(cols=[('a', dict(fk=('A', 'x')))]),
     'H': dict(cols=[('a1', dict(fk=('A', 'n'))), ('a2', dict(fk=('A', 'c')))]),
+    'G': dict(cols=[('a1', dict(fk=('A', 'r'))), ('a2', dict(fk=('A', 'c')))]),
     'Lz': dict(lazy=True, cols=[('n', dict(alt=True)), ('m', {})], props=True),
     'Par': dict(inh=True, cols=[('a', dict(alt=True))]),
     'Chi': dict(parent='Par', cols=[('b', dict(alt=True)), ('c', dict(check=100))]),
@@ -76,9 +82,9 @@ CLS = {
     'DP': dict(cols=[('ref', dict(fk=('Par', 'c')))]),
 }
 ORDERS = [
-    ['A', 'F', 'B', 'C', 'D', 'E', 'N', 'H', 'Lz', 'Par', 'Chi', 'DC', 'DP'],
-    ['D', 'A', 'C', 'B', 'E', 'F', 'H', 'N', 'Lz', 'Par', 'Chi', 'DP', 'DC'],
-    ['H', 'B', 'E', 'C', 'F', 'A', 'D', 'N', 'Par', 'Chi', 'Lz', 'DC', 'DP'],
+    ['A', 'F', 'B', 'C', 'D', 'E', 'N', 'H', 'G', 'Lz', 'Par', 'Chi', 'DC', 'DP'],
+    ['D', 'A', 'C', 'G', 'B', 'E', 'F', 'H', 'N', 'Lz', 'Par', 'Chi', 'DP', 'DC'],
+    ['H', 'B', 'E', 'C', 'F', 'A', 'D', 'N', 'G', 'Par', 'Chi', 'Lz', 'DC', 'DP'],
 ]
 LINKS = [('lk0', 'a_id', 'f_id')]
 CHILDNAME = {'Chi': 1, None: None}
@@ -620,6 +626,10 @@ def directed(vi):
     out.append(('destroy-cascade-ok', hA + [mk_create(v, 'F', v=1), ['link', 0, 1, 1], mk_create(v, 'B', a=1),
                                             mk_create(v, 'E', b=1), mk_create(v, 'C', a=1), mk_create(v, 'H', a1=1, a2=1)],
                 ['destroy', A, 1]))
+    out.append(('destroy-mixed-restrict-cascade-not-refused', hA + [mk_create(v, 'G', a1=None, a2=1), mk_create(v, 'G', a1=2, a2=1)],
+                ['destroy', A, 1]))
+    out.append(('destroy-mixed-restrict-cascade-refused', hA + [mk_create(v, 'C', a=1), mk_create(v, 'G', a1=1, a2=None)],
+                ['destroy', A, 1]))
     out.append(('destroy-restrict-only', hA + [mk_create(v, 'D', a=2)], ['destroy', A, 2]))
     out.append(('destroy-no-dependents', hA, ['destroy', A, 2]))
     out.append(('destroy-unfetched-dependents', hA + [mk_create(v, 'C', a=1), ['forget', C, 1], mk_create(v, 'B', a=1),
@@ -680,7 +690,7 @@ def random_case(ctx, vi):
             if rng.random() < 0.5:
                 hist.append(['link', 0, a, i])
     ids['F'] = list(range(1, nF + 1))
-    for dep in ['B', 'C', 'D', 'N', 'H']:
+    for dep in ['B', 'C', 'D', 'N', 'H', 'G']:
         ids[dep] = []
         p = 0.25 if dep == 'D' else 0.6
         for _ in range(rng.randint(0, 2)):
@@ -690,6 +700,8 @@ def random_case(ctx, vi):
             i = len(ids[dep]) + 1
             if dep == 'H':
                 hist.append(mk_create(v, 'H', a1=a, a2=rng.choice(ids['A'] + [None])))
+            elif dep == 'G':
+                hist.append(mk_create(v, 'G', a1=rng.choice([None, None, a]), a2=rng.choice(ids['A'] + [None])))
             else:
                 hist.append(mk_create(v, dep, a=a))
             ids[dep].append(i)
@@ -797,7 +809,7 @@ def run(ctx):
     for vi in range(len(ORDERS)):
         for name, hist, op in directed(vi):
             cases.append(('directed:' + name, vi, hist, op))
-    nrand = ctx.budget(900, 12000)
+    nrand = ctx.budget(700, 9000)
     for i in range(nrand):
         vi = i % len(ORDERS)
         hist, op = random_case(ctx, vi)
